@@ -40,6 +40,26 @@
                     batch is decoded as a single Request - answered with one -32700 Parse error
                     object instead of being processed.
 
+   PARAMETER TYPE CLASSES and the VALIDATOR (jsonrpc/server.go parseParam / validateParam).  The server
+   treats handler parameters differently by their Go type: every supplied value is json.Unmarshal-ed
+   into reflect.New(T); then, if the server was built WithValidator (production: rpcv10.Validator()),
+   validateParam hands it to validator.Struct when T is a struct or a NON-NIL pointer to a struct, and
+   recurses into the elements of slices, arrays and maps; nothing else is validated; an OMITTED
+   optional parameter gets reflect.New(T).Elem() and is never validated.  So each parameter carries a
+   type class (TypeClass below: what a JSON null decodes to - the zero value, a nil pointer / slice /
+   map, or an error of the type's own UnmarshalJSON -, how validateParam reaches it, whether the type
+   declares validate tags, whether its elements may be nil pointers), the value alphabet gets two more
+   tokens ("inv": right JSON kind, decodes, violates a validate tag; "nin": a container one of whose
+   elements is null), and the server gets the dimension HasValidator.  One mechanism can fail and is a
+   switch (TRUE = the code as it is):
+
+     NilPointerSkipsValidation   validateParam asks the VALUE whether a pointer points to a struct
+                    (param.Elem().Kind()): a nil pointer has no Elem, is not handed to the validator
+                    (validator.Struct(nil *T) is an InvalidValidationError) and reaches the handler as
+                    nil - exactly what an omitted parameter gives.  FALSE (the static type is asked
+                    instead): an explicit null for an optional *T parameter - and a null element of a
+                    []*T / map[string]*T - is refused with -32602 and the handler never runs.
+
    Modelling decisions (stated, not hidden):
      * an id member that is null is read as no id - the code (Request.ID == nil) and JSON-RPC 1.0 treat it as a
        notification; 2.0 merely discourages it.  Not judged.
@@ -51,7 +71,7 @@
 EXTENDS Naturals, Integers, Sequences, FiniteSets, TLC
 
 CONSTANTS
-  Methods,          \* name -> [ctx : BOOLEAN, params : Seq([name : {"a","b"}, opt : BOOLEAN])]
+  Methods,          \* name -> [ctx : BOOLEAN, params : Seq([name : {"a","b"}, opt : BOOLEAN, ty : DOMAIN TypeClass])]
   EntryAlphabet,    \* set of entries AddEntry may choose from
   TopKinds,         \* subset of {"garbage","garbagearr","single","batch"}
   MaxEntries,       \* longest batch
@@ -60,7 +80,9 @@ CONSTANTS
   FarChoices,       \* {FALSE} or BOOLEAN: may the input start with >= 128 bytes of whitespace
   FixNotif,
   FixNonRequest,
-  FixLongWs
+  FixLongWs,
+  HasValidator,     \* the server was built WithValidator(...) (the node: rpcv10.Validator())
+  NilPointerSkipsValidation   \* mechanism switch, TRUE = the code as it is (see above)
 
 KnownMethods == DOMAIN Methods
 
@@ -68,8 +90,43 @@ KnownMethods == DOMAIN Methods
 (* Abstract syntax.  Everything is a string / record of strings so that TLC can compare values. *)
 
 Tok    == {"p", "q", "bad", "nul"}   \* p,q: well-typed distinct values; bad: wrong JSON type for
-                                      \* the slot; nul: JSON null (Go: zero value, no error)
+                                      \* the slot (json.Unmarshal fails); nul: JSON null
+TokT   == Tok \cup {"inv", "nin"}    \* inv: decodes, but violates a validate tag of the slot's type;
+                                      \* nin: a well-typed container with a null element (nil pointer inside)
 NoTok  == "-"
+
+(* Go parameter type classes, as far as jsonrpc/server.go and encoding/json tell them apart:
+     null    what json.Unmarshal makes of a JSON null: "zero" (no-op: the zero value), "nil" (pointer,
+             slice, map) or "reject" (a value type whose own UnmarshalJSON / UnmarshalText refuses null)
+     val     how validateParam reaches it: "self" (kind Struct), "ptr" (pointer to a struct, when not
+             nil), "elems" (slice / array / map: every element, by the element's own kind), "none"
+     tags    the type declares validate tags (its zero value and the "inv" values violate them)
+     elemnil the elements are pointers: a null element is a nil pointer inside the container
+   int, str: scalars; struct: value struct with required-tag fields; pstruct: pointer to it; pint:
+   pointer to a scalar; slice: []struct; lsp: []*struct; mapp: map[string]*struct; custom: a value
+   struct with its own UnmarshalJSON that refuses null (rpcv10.BlockID); pcustom: pointer to it
+   (rpcv10: pointer to BlockID, pointer to SubscriptionBlockID); flags: a value struct whose UnmarshalJSON reads
+   null as "no flags" (rpcv10.ResponseFlags). *)
+TC(n, v, t, e) == [null |-> n, val |-> v, tags |-> t, elemnil |-> e]
+TypeNames == {"int", "str", "struct", "pstruct", "pint", "slice", "lsp", "mapp", "custom", "pcustom", "flags"}
+TypeClass == [t \in TypeNames |->
+  CASE t \in {"int", "str"} -> TC("zero",   "none",  FALSE, FALSE)
+    [] t = "struct"         -> TC("zero",   "self",  TRUE,  FALSE)
+    [] t = "pstruct"        -> TC("nil",    "ptr",   TRUE,  FALSE)
+    [] t = "pint"           -> TC("nil",    "none",  FALSE, FALSE)
+    [] t = "slice"          -> TC("nil",    "elems", TRUE,  FALSE)
+    [] t = "lsp"            -> TC("nil",    "elems", TRUE,  TRUE)
+    [] t = "mapp"           -> TC("nil",    "elems", TRUE,  TRUE)
+    [] t = "custom"         -> TC("reject", "self",  FALSE, FALSE)
+    [] t = "pcustom"        -> TC("nil",    "ptr",   FALSE, FALSE)
+    [] t = "flags"          -> TC("zero",   "self",  FALSE, FALSE)]
+
+(* the tokens that exist for a slot of type ty *)
+TokOf(ty) == {"p", "bad", "nul"} \cup (IF TypeClass[ty].tags THEN {"inv"} ELSE {})
+                                 \cup (IF TypeClass[ty].elemnil THEN {"nin"} ELSE {})
+
+(* reflect.New(T).Elem(): what an omitted optional parameter gives the handler *)
+ZeroOf(ty) == IF TypeClass[ty].null = "nil" THEN "nil" ELSE "zero"
 PNames == {"a", "b", "x"}            \* "x" is a name no method declares
 
 PAbsent == [k |-> "absent", pos |-> <<>>, a |-> NoTok, b |-> NoTok, x |-> NoTok]
@@ -110,15 +167,28 @@ Superfluous(md, p) ==
   \/ p.k = "pos" /\ Len(p.pos) > Len(md.params)
   \/ p.k = "named" /\ \E n \in PNames \ {md.params[i].name : i \in DOMAIN md.params} : Named(p, n) # NoTok
 
+(* Is the supplied value acceptable for a slot of type ty?  The constraints a type declares (its
+   validate tags) bind only where a validator enforces them; a null means "not present" for a
+   nullable type (the handler gets nil, as for an omitted parameter) and the zero value elsewhere -
+   acceptable iff the zero value is, and the type's own decoder does not refuse it. *)
+Nullable(ty)    == TypeClass[ty].null = "nil"
+Constrained(ty) == HasValidator /\ TypeClass[ty].tags /\ TypeClass[ty].val # "none"
+DeclAccepts(ty, t) ==
+  CASE t = "bad" -> FALSE
+    [] t = "nul" -> Nullable(ty) \/ (TypeClass[ty].null = "zero" /\ ~Constrained(ty))
+    [] t = "inv" -> ~Constrained(ty)
+    [] OTHER     -> TRUE
+(* omitted and null reach the handler alike *)
+DeclArg(ty, t) == IF t \in {NoTok, "nul"} THEN ZeroOf(ty) ELSE t
+
 ParamsFit(md, p) ==
   /\ p.k # "scalar"
   /\ ~Superfluous(md, p)
   /\ \A i \in DOMAIN md.params :
-       /\ Supplied(md, p, i) # "bad"
+       /\ Supplied(md, p, i) # NoTok => DeclAccepts(md.params[i].ty, Supplied(md, p, i))
        /\ ~md.params[i].opt => Supplied(md, p, i) # NoTok
 
-ArgOf(t) == IF t \in {NoTok, "nul"} THEN "zero" ELSE t
-DeclArgs(md, p) == [i \in DOMAIN md.params |-> ArgOf(Supplied(md, p, i))]
+DeclArgs(md, p) == [i \in DOMAIN md.params |-> DeclArg(md.params[i].ty, Supplied(md, p, i))]
 
 Class(e) ==
   IF ~ValidRequest(e) THEN "invalid"
@@ -193,25 +263,51 @@ NilOrEmpty(p) == \/ p.k \in {"absent", "null"}
                  \/ p.k = "pos" /\ p.pos = <<>>
                  \/ p.k = "named" /\ p.a = NoTok /\ p.b = NoTok /\ p.x = NoTok
 
+(* parseParam: json.Unmarshal(json.Marshal(param), reflect.New(T)) ... *)
+Unmarshal(ty, t) ==
+  IF t = "bad" THEN "err"
+  ELSE IF t = "nul" THEN (IF TypeClass[ty].null = "reject" THEN "err" ELSE TypeClass[ty].null)
+  ELSE t
+(* ... then validateParam(elem), case by case as written: TRUE = no error *)
+ValidateParam(ty, v) ==
+  LET c == TypeClass[ty]
+      tagfail == c.tags /\ v \in {"inv", "zero"}     \* validator.Struct finds a violated tag (the zero value violates `required`)
+  IN
+  CASE c.val = "self"  -> ~tagfail                                         \* validator.Struct(value)
+    [] c.val = "ptr"   -> IF v = "nil" THEN NilPointerSkipsValidation      \* param.Elem().Kind() is Invalid: case skipped
+                          ELSE ~tagfail                                    \* validator.Struct(pointer)
+    [] c.val = "elems" -> IF v = "nil" THEN TRUE                           \* Len() = 0 / no keys
+                          ELSE IF v = "nin" THEN NilPointerSkipsValidation \* the recursion meets a nil pointer
+                          ELSE ~tagfail
+    [] OTHER -> TRUE
+ParseParam(ty, t) ==
+  LET v == Unmarshal(ty, t) IN
+  IF v = "err" THEN "err"
+  ELSE IF HasValidator /\ ~ValidateParam(ty, v) THEN "err"
+  ELSE v
+
 BuildFail == [ok |-> FALSE, args |-> <<>>]
 BuildOK(a) == [ok |-> TRUE, args |-> a]
 
 (* Server.buildArguments, case by case as written *)
 BuildArguments(md, p) ==
   IF NilOrEmpty(p) THEN
-    IF Required(md) > 0 THEN BuildFail ELSE BuildOK([i \in 1..Total(md) |-> "zero"])
+    IF Required(md) > 0 THEN BuildFail ELSE BuildOK([i \in 1..Total(md) |-> ZeroOf(md.params[i].ty)])
   ELSE IF p.k = "pos" THEN
     LET n == Len(p.pos) IN
     IF n < Required(md) \/ n > Total(md) THEN BuildFail
-    ELSE IF \E i \in 1..n : p.pos[i] = "bad" THEN BuildFail                   \* parseParam
-    ELSE BuildOK([i \in 1..Total(md) |-> IF i <= n THEN ArgOf(p.pos[i]) ELSE "zero"])
+    ELSE IF \E i \in 1..n : ParseParam(md.params[i].ty, p.pos[i]) = "err" THEN BuildFail
+    ELSE BuildOK([i \in 1..Total(md) |-> IF i <= n THEN ParseParam(md.params[i].ty, p.pos[i])
+                                         ELSE ZeroOf(md.params[i].ty)])    \* reflect.New(T).Elem(), not validated
   ELSE \* named
     LET v(i) == Named(p, md.params[i].name)
+        ty(i) == md.params[i].ty
         declared == {md.params[i].name : i \in DOMAIN md.params}
     IN
-    IF \E i \in DOMAIN md.params : v(i) = "bad" \/ (v(i) = NoTok /\ ~md.params[i].opt) THEN BuildFail
+    IF \E i \in DOMAIN md.params : (v(i) # NoTok /\ ParseParam(ty(i), v(i)) = "err")
+                                      \/ (v(i) = NoTok /\ ~md.params[i].opt) THEN BuildFail
     ELSE IF \E n \in PNames \ declared : Named(p, n) # NoTok THEN BuildFail   \* "unexpected params"
-    ELSE BuildOK([i \in 1..Total(md) |-> ArgOf(v(i))])
+    ELSE BuildOK([i \in 1..Total(md) |-> IF v(i) = NoTok THEN ZeroOf(ty(i)) ELSE ParseParam(ty(i), v(i))])
 
 (* Server.handleRequest + the caller's error mapping. Returns [resp, inv]. *)
 HandleRequest(i, e) ==
@@ -443,7 +539,7 @@ NamedTwin(md, s) ==
                IF I = {} THEN NoTok ELSE s[CHOOSE i \in I : TRUE]
   IN PNamed(at("a"), at("b"), NoTok)
 
-PosSeqs == {<<>>} \cup {<<t1>> : t1 \in Tok} \cup {<<t1, t2>> : t1, t2 \in Tok}
+PosSeqs == {<<>>} \cup {<<t1>> : t1 \in TokT} \cup {<<t1, t2>> : t1, t2 \in TokT}
 
 PositionalEqNamed ==
   \A m \in KnownMethods :
